@@ -589,6 +589,19 @@ func c06Types(c *h.Ctx) error {
 					c.Drift(cd.site+".Marshal", "layout:unknown", fmt.Sprintf("encoding %s differs from both layouts of the specification (%s)", h.Hex(b[:min(len(b), 40)]), h.Hex(ln.Enc[:min(len(ln.Enc), 40)])), c06SampleOf(ln.T, ln.V, b, nil))
 				}
 			}
+			// the same encoding delivered in a buffer that held the previous encoding of this length (reused caller buffer)
+			if len(b) <= 4096 {
+				c.ReusedInput(cd.site+".Unmarshal", b, func(in []byte) string {
+					o := cd.fresh()
+					var n int
+					var err error
+					if p := h.Guard(func() { n, err = o.Unmarshal(in) }); p != "" || err != nil {
+						return fmt.Sprintf("error %v %s", err, p)
+					}
+					j, _ := json.Marshal(cd.proj(o))
+					return fmt.Sprintf("%d %s", n, j)
+				}, map[string]interface{}{"type": ln.T})
+			}
 			// P: Unmarshal(bytes || suffix) = (fields, len(bytes)) for every suffix
 			base := map[string]bool{}
 			for si, suf := range sufs {
